@@ -6,7 +6,7 @@ from sa.terms import C, CallT, P, Sub, SubC, is_call, is_lit, show
 from sa.walker import JSON_TYPES, State, flatten_events
 
 from . import payload_is_isolated, fn_site, own_site
-from .signer import SignSignable, agreement, canon_bytes, entry_dict, pubhex_of_private, signature_hex
+from .signer import SignSignable, agreement, as_item_stores as _as_item_stores, canon_bytes, entry_dict, pubhex_of_private, signature_hex
 from .vs import VSModel, envelope, hexconj, le_facts
 
 EXPLANATION = (
@@ -151,6 +151,7 @@ def sign_signable_rules(ctx, rule):
     n_paths = 0
     agg = {"gates": True, "one-store": True, "target": True, "value": True, "checked-before-store": True}
     notes = {}
+    bulk_sites = set()
     for p in w.returns:
         n_paths += 1
         st = State(facts=p.facts)
@@ -168,6 +169,16 @@ def sign_signable_rules(ctx, rule):
             return ev0[0] == "del" and isinstance(ev0[2], tuple) and ev0[2][0] == "sub" and ev0[2][1] == own_sigs and pubhex_of_private(eng.expand(ev0[2][2]), w.priv)
 
         stores = [ev0 for ev0 in stores if not _own_removal(ev0)]
+        # map.update({k: v}) and map = {**map, k: v}: the same as the stores map[k] = v
+        expanded = []
+        for ev0 in stores:
+            items = _as_item_stores(eng, ev0, own_sigs, evs)
+            if items is None:
+                expanded.append(ev0)
+            else:
+                bulk_sites.add(ev0[1])
+                expanded.extend(("store", ev0[1], Sub(own_sigs, k), v) for k, v in items)
+        stores = expanded
         if len(stores) != 1 or stores[0][0] != "store":
             agg["one-store"] = False
             notes["one-store"] = "%d stores/mutations of the envelope on a returning path" % len(stores)
@@ -177,7 +188,7 @@ def sign_signable_rules(ctx, rule):
         if not (tgt[1] == SubC(w.signable, "signatures") and pubhex_of_private(eng.expand(tgt[2]), w.priv)):
             agg["target"] = False
             notes["target"] = "stored at %s" % show(tgt)[:120]
-        sig = entry_dict(eng.expand(val))
+        sig = entry_dict(eng.expand(val), evs[: evs.index(ev)] if ev in evs else evs)
         good, why2 = (False, "entry is %s" % show(val)[:80]) if sig is None else signature_hex(sig, w.priv, msg)
         if not good:
             agg["value"] = False
@@ -185,7 +196,8 @@ def sign_signable_rules(ctx, rule):
         else:
             # grammar facts about the stored signature text were established before the store
             idx = evs.index(ev) if ev in evs else len(evs)
-            checked = hexconj(st, sig, 128) and any(e[0] == "call" and e[2].startswith("repo:") and e[5][0] == "ok" and any(_mentions(a, sig) for a in e[3]) for e in evs[:idx])
+            slot = Sub(eng.expand(val), C("signature"))  # (a display filled in after its creation: facts name the slot)
+            checked = (hexconj(st, sig, 128) or hexconj(st, slot, 128)) and any(e[0] == "call" and e[2].startswith("repo:") and e[5][0] == "ok" and any(_mentions(a, sig) or a == val or eng.expand(a) == eng.expand(val) for a in e[3]) for e in evs[:idx])
             if not checked:
                 agg["checked-before-store"] = False
     texts = {
@@ -204,6 +216,9 @@ def sign_signable_rules(ctx, rule):
         if x[0] != w.sm.params[0] or not x[1] or x[1][0] != ("sub", C("signatures")):
             return False
         if len(x[1]) == 2 and x[1][1][0] == "sub" and pubhex_of_private(eng.expand(x[1][1][1]), w.priv):
+            return True
+        # map.update({own key: entry}) / map = {**map, own key: entry}: judged item by item above
+        if len(x[1]) == 1 and x[3] in bulk_sites:
             return True
         # .pop(<own key>, ...) on the signature map
         if len(x[1]) == 1 and x[2] == ".pop()":
